@@ -218,13 +218,29 @@ impl<'v> Iterator for OneOrManyValueIter<'v> {
   }
 }
 
+/// Returns whether `entry` is the placeholder `{"...": "<digest>"}` that stands for a concealed array entry.
+fn is_concealed_array_entry(entry: &Value) -> bool {
+  entry
+    .as_object()
+    .is_some_and(|object| object.len() == 1 && object.get("...").is_some_and(Value::is_string))
+}
+
 fn index_value<'v>(value: &'v Value, segment: &ClaimPathSegment) -> anyhow::Result<OneOrManyValue<'v>> {
   match segment {
     ClaimPathSegment::Name(name) => value.get(name).map(OneOrManyValue::One),
-    ClaimPathSegment::Position(i) => value.get(i).map(OneOrManyValue::One),
+    // A concealed array entry is not there, exactly like a concealed object property.
+    ClaimPathSegment::Position(i) => value
+      .get(i)
+      .filter(|entry| !is_concealed_array_entry(entry))
+      .map(OneOrManyValue::One),
     ClaimPathSegment::All => value
       .as_array()
-      .map(|values| OneOrManyValue::Many(Box::new(values.iter()))),
+      .filter(|values| values.is_empty() || !values.iter().all(is_concealed_array_entry))
+      .map(|values| {
+        OneOrManyValue::Many(Box::new(
+          values.iter().filter(|entry| !is_concealed_array_entry(entry)),
+        ))
+      }),
   }
   .ok_or_else(|| anyhow::anyhow!("value {value:#} has no element {segment}"))
 }
